@@ -53,32 +53,24 @@ def splitDotDot : Str → Option (Str × Str)
 
 def isCont (c : UInt8) : Bool := 0x80 ≤ c && c ≤ 0xBF
 
-/-- Width in bytes of the first UTF-8 sequence of a non-empty string, following Go:
+/-- a valid two-byte sequence -/
+def is2 (c c1 : UInt8) : Bool := 0xC2 ≤ c && c ≤ 0xDF && isCont c1
+/-- a valid three-byte sequence (no overlongs, no surrogates) -/
+def is3 (c c1 c2 : UInt8) : Bool :=
+  0xE0 ≤ c && c ≤ 0xEF && (if c == 0xE0 then 0xA0 else 0x80) ≤ c1 && c1 ≤ (if c == 0xED then 0x9F else 0xBF) && isCont c2
+/-- a valid four-byte sequence (no overlongs, at most U+10FFFF) -/
+def is4 (c c1 c2 c3 : UInt8) : Bool :=
+  0xF0 ≤ c && c ≤ 0xF4 && (if c == 0xF0 then 0x90 else 0x80) ≤ c1 && c1 ≤ (if c == 0xF4 then 0x8F else 0xBF) &&
+    isCont c2 && isCont c3
+
+/-- Width in bytes of the first UTF-8 sequence of a string, following Go's `utf8.DecodeRuneInString`:
 an invalid or truncated sequence has width 1. -/
 def utf8Width : Str → Nat
   | [] => 0
-  | c :: rest =>
-    if c < 0x80 then 1
-    else if c < 0xC2 then 1
-    else if c ≤ 0xDF then
-      match rest with
-      | c1 :: _ => if isCont c1 then 2 else 1
-      | _ => 1
-    else if c ≤ 0xEF then
-      match rest with
-      | c1 :: c2 :: _ =>
-        let lo : UInt8 := if c == 0xE0 then 0xA0 else 0x80
-        let hi : UInt8 := if c == 0xED then 0x9F else 0xBF
-        if lo ≤ c1 && c1 ≤ hi && isCont c2 then 3 else 1
-      | _ => 1
-    else if c ≤ 0xF4 then
-      match rest with
-      | c1 :: c2 :: c3 :: _ =>
-        let lo : UInt8 := if c == 0xF0 then 0x90 else 0x80
-        let hi : UInt8 := if c == 0xF4 then 0x8F else 0xBF
-        if lo ≤ c1 && c1 ≤ hi && isCont c2 && isCont c3 then 4 else 1
-      | _ => 1
-    else 1
+  | [_] => 1
+  | [c, c1] => if is2 c c1 then 2 else 1
+  | [c, c1, c2] => if is2 c c1 then 2 else if is3 c c1 c2 then 3 else 1
+  | c :: c1 :: c2 :: c3 :: _ => if is2 c c1 then 2 else if is3 c c1 c2 then 3 else if is4 c c1 c2 c3 then 4 else 1
 
 /-- `strings.Split(s, "")`: one element per UTF-8 sequence (invalid bytes one by one).
 Fuel-structural; `explode s = explodeF s.length s`. -/
